@@ -59,17 +59,19 @@ func DIMACS(n int, clauses [][]int, l *Layout) string {
 		b.WriteString(" ")
 	}
 	b.WriteString(l.nl())
+	lineStart := true
 	for i, c := range clauses {
-		if l.coin(0.15) {
+		if lineStart && l.coin(0.15) {
 			b.WriteString("c a comment 1 2 0" + l.nl())
 		}
 		if l.coin(0.1) {
 			b.WriteString(l.sp())
 		}
+		lineStart = false
 		for _, x := range c {
 			b.WriteString(fmt.Sprintf("%d", x))
 			if l.Level >= 2 && l.R.Intn(8) == 0 {
-				b.WriteString(l.nl()) // a clause may span lines
+				b.WriteString(l.nl()) // a clause may span lines (no comment in the middle of a clause)
 			} else {
 				b.WriteString(l.sp())
 			}
@@ -82,6 +84,7 @@ func DIMACS(n int, clauses [][]int, l *Layout) string {
 			// no final newline
 		} else {
 			b.WriteString(l.nl())
+			lineStart = true
 		}
 	}
 	if l.coin(0.2) {
@@ -156,9 +159,6 @@ func OPB(n int, hasObj bool, objTerms []Term, cons []Lin, l *Layout) string {
 			rhs = "+" + rhs
 		}
 		b.WriteString(fmt.Sprintf("%s%s%s%s%s;", l.spNoTab(), c.Rel, l.spNoTab(), rhs, l.spNoTab()))
-		if l.coin(0.2) {
-			b.WriteString(" ")
-		}
 		b.WriteString("\n")
 	}
 	return b.String()
